@@ -12,7 +12,8 @@
 //	                                                  request log with the variables each template saw, samples.
 //	                                                  The gun is built from the `gun:` section of a pool config
 //	                                                  through the plugin registry (registered defaults): gun:d =
-//	                                                  type and target only, gun:f = `redirect: false` written too
+//	                                                  type and target only, gun:f = `redirect: false` written too,
+//	                                                  gun:2 = http2/scenario (type, target) over TLS + HTTP/2
 //	inst <instances> <total> <tables> <reqs> <scens>  provider + several guns concurrently; rows seen per scenario
 //	iter <goroutines> <per> <len> <rounds>            real mp.NextIterator / GetMapValue from several goroutines;
 //	                                                  <rounds> start-ups per arena with simultaneous first calls
@@ -183,11 +184,15 @@ func (r regGun) Close() {
 	}
 }
 
-// gunOpt: "d" = only type and target are written; "f" = `redirect: false` is written as well
+// gunOpt: "d" = only type and target are written; "f" = `redirect: false` is written as well;
+// "2" = the http2/scenario gun (type and target only) against the TLS + HTTP/2 side of the target
 func newGun(ag netsample.Aggregator, id int, gunOpt string) regGun {
 	section := map[string]interface{}{"type": "http/scenario", "target": target.Addr()}
 	if gunOpt == "f" {
 		section["redirect"] = false
+	}
+	if gunOpt == "2" {
+		section = map[string]interface{}{"type": "http2/scenario", "target": target.AddrTLS()}
 	}
 	var d struct {
 		Gun func() (core.Gun, error)
